@@ -116,7 +116,7 @@ class CeilingChecker:
     def __call__(self, touched, step):
         w = self.w
         kind = w.kind
-        for i in sorted(touched):
+        for i in range(w.n):  # all sketches, not only the touched one
             sk = w.sk[i]
             if kind == "hh":
                 self.check_hh(i, step)
